@@ -66,12 +66,14 @@ SIGS = {
     "directlyProvidedBy": ("gen_directlyProvidedBy", [("object", "target")], None, "decl"),
     # the statement of implementedBy() that installs the ClassProvides of a new class
     "implementedBy_class_provides": ("gen_implementedBy_class_provides", [("cls", "target")], None, "state"),
+    # implementedBy itself (the path for a class whose __dict__ can be read; recursion on fuel)
+    "implementedBy": ("gen_implementedBy", [("cls", "clsref")], None, "state+node"),
 }
 DEFAULTS_OK = {"_classImplements_ordered": ["()", "()"]}
-ORDER = ["_add_interfaces_to_cls", "implementedBy_class_provides", "changed", "_classImplements_ordered", "classImplements", "classImplementsOnly",
+ORDER = ["_add_interfaces_to_cls", "implementedBy_class_provides", "implementedBy", "changed", "_classImplements_ordered", "classImplements", "classImplementsOnly",
          "classImplementsFirst", "Provides", "directlyProvidedBy", "directlyProvides", "alsoProvides",
          "noLongerProvides"]
-COQ_TYPE = {"list": "list node", "node": "node", "spec": "node", "clsref": "kclsref", "target": "target",
+COQ_TYPE = {"dv": "kdv", "list": "list node", "node": "node", "spec": "node", "clsref": "kclsref", "target": "target",
             "key": "kkey", "prov": "kprov", "origin": "korigin", "decl": "list node"}
 LISTY = ("list", "decl")
 
@@ -98,7 +100,7 @@ class _Fn:
         if [ast.unparse(d) for d in a.defaults] != DEFAULTS_OK.get(self.name, []):
             _fail(fn, "unexpected parameter defaults")
         decos = [ast.unparse(d) for d in fn.decorator_list]
-        if decos != (["staticmethod"] if self.name == "_add_interfaces_to_cls" else []):
+        if decos != {"_add_interfaces_to_cls": ["staticmethod"], "implementedBy": ["_use_c_impl"]}.get(self.name, []):
             _fail(fn, "unexpected decorators %r" % decos)
         for p, k in self.params:
             self.env[p] = k
@@ -187,6 +189,10 @@ class _Fn:
             return "(p_the %s)" % txt, "prov"
         if want == "optprov" and kind == "prov":
             return "(Some %s)" % txt, "optprov"
+        if want in ("spec", "node") and kind == "dv":
+            return "(p_dv_spec %s)" % txt, want
+        if want == "target" and kind == "clsref" and self.name == "implementedBy":
+            return "(p_as_object %s)" % txt, "target"
         if want == "bool" and kind in LISTY:
             return "(p_truth %s)" % txt, "bool"
         _fail(e, "expression of kind %s where %s is needed" % (kind, want))
@@ -207,6 +213,8 @@ class _Fn:
                 _fail(e, "starred element")
             if not e.elts:
                 return "(@nil node)", "list"
+            if len(e.elts) == 1 and isinstance(e.elts[0], ast.Name) and self.env.get(e.elts[0].id) == "dv":
+                return "(p_dv_old %s)" % e.elts[0].id, "list"   # an old-style __implemented__ value
             return "[" + "; ".join(self.expr(x, "node")[0] for x in e.elts) + "]", "list"
         if isinstance(e, ast.ListComp):
             return self.comprehension(e)
@@ -275,8 +283,8 @@ class _Fn:
         wrap = (lambda t: "(negb %s)" % t) if neg else (lambda t: t)
         if isinstance(op, (ast.In, ast.NotIn)) and isinstance(l, ast.Constant) and l.value == "__provides__" \
                 and isinstance(r, ast.Attribute) and r.attr == "__dict__" and isinstance(r.value, ast.Name) \
-                and self.env.get(r.value.id) == "target":
-            return wrap("(p_has_own_provides s %s)" % r.value.id.replace("object", "object_")), "bool"
+                and self.env.get(r.value.id) in ("target", "clsref"):
+            return wrap("(p_has_own_provides s %s)" % self.expr(r.value, "target")[0]), "bool"
         if isinstance(op, (ast.In, ast.NotIn)):
             a = self.expr(l, "node")[0]
             b, kb = self.expr(r)
@@ -290,7 +298,8 @@ class _Fn:
                     and self.env.get(l.value.id) == "spec":
                 return wrap("(negb (p_inherit_is_set s %s))" % l.value.id), "bool"
             a, k = self.expr(l)
-            prim = {"clsref": "p_is_none_ref", "optprov": "p_is_none_opt", "got": "p_got_is_none"}.get(k)
+            prim = {"clsref": "p_is_none_ref", "optprov": "p_is_none_opt", "got": "p_got_is_none",
+                    "dv": "p_dv_is_none"}.get(k)
             if prim is None:
                 _fail(e, "'is None' on a value of kind %s" % k)
             return wrap("(%s %s)" % (prim, a)), "bool"
@@ -316,6 +325,8 @@ class _Fn:
                 return "(p_args %s)" % base, "key"
             if k == "got" and e.attr == "__bases__":
                 return "(p_bases %s)" % base, "list"
+        if self.name == "implementedBy" and src == "cls.__bases__":
+            return "(p_pybases s cls)", "cls_list"
         if isinstance(e.value, ast.Attribute) and isinstance(e.value.value, ast.Name) \
                 and self.env.get(e.value.value.id) == "spec" and e.value.attr == "inherit" and e.attr == "__bases__":
             return "(p_inherit_pybases s %s)" % e.value.value.id, "cls_list"
@@ -328,6 +339,22 @@ class _Fn:
         args = e.args
         if isinstance(f, ast.Name):
             n = f.id
+            if self.name == "implementedBy":
+                if n == "isinstance" and len(args) == 2 and isinstance(args[1], ast.Name):
+                    a, k = self.expr(args[0])
+                    if (k, args[1].id) == ("clsref", "super"):
+                        return "(p_isinstance_super %s)" % a, "bool"
+                    if (k, args[1].id) == ("dv", "Implements"):
+                        return "(p_dv_is_implements %s)" % a, "bool"
+                    if (k, args[1].id) == ("clsref", "type"):
+                        return "(p_isinstance_type (p_as_object %s))" % a, "bool"
+                if n == "_implements_name" and len(args) == 1:
+                    return "(p_implements_name %s)" % self.expr(args[0], "clsref")[0], "clsref"
+                if n == "hasattr" and len(args) == 2 and isinstance(args[1], ast.Constant) \
+                        and args[1].value == "__providedBy__":
+                    return "(p_hasattr_providedBy s %s)" % self.expr(args[0], "clsref")[0], "bool"
+                if n == "getattr" and len(args) == 3 and ast.unparse(e) == "getattr(cls, '__class__', type(cls))":
+                    return "(p_getattr_class s (p_as_object cls))", "clsref"
             if n in ("tuple", "list") and len(args) == 1 and not isinstance(args[0], ast.Starred):
                 a, k = self.expr(args[0])
                 if k not in ("list", "cls_list"):
@@ -388,6 +415,10 @@ class _Fn:
             if n == "directlyProvidedBy" and len(args) == 1:
                 return "(gen_directlyProvidedBy g s %s)" % self.expr(args[0], "target")[0], "decl"
             _fail(e, "call of %s is not known to the translator" % n)
+        if self.name == "implementedBy" and ast.unparse(e) == "cls.__dict__.get('__implemented__')":
+            return "(p_dict_get_implemented s cls)", "dv"
+        if self.name == "implementedBy" and ast.unparse(e) == "BuiltinImplementationSpecifications.get(cls)":
+            return "(p_table_get s cls)", "dv"
         if isinstance(f, ast.Attribute) and isinstance(f.value, ast.Name):
             base, m = f.value.id, f.attr
             if base == "InstanceDeclarations" and m == "get" and len(args) == 1 and base not in self.env:
@@ -429,6 +460,8 @@ class _Fn:
         st, rest = stmts[0], list(stmts[1:])
         if isinstance(st, ast.Expr) and isinstance(st.value, ast.Constant) and isinstance(st.value.value, str):
             return self.block(rest, final, ind)   # docstring
+        if isinstance(st, ast.Try):
+            return self.try_stmt(st, rest, final, ind)
         saved = dict(self.env)
         try:
             head = self.stmt(st, rest, final, ind)
@@ -440,6 +473,32 @@ class _Fn:
             if False:
                 self.env = saved
 
+    TRY_ATTR_BODIES = (
+        # reading the class: the handler is the security-proxy / non-class path, which is outside
+        # the modelled universe (cls is a type whose __dict__ and __bases__ can be read)
+        ["if isinstance(cls, super):\n    return _implementedBy_super(cls)", "spec = cls.__dict__.get('__implemented__')"],
+        ["bases = cls.__bases__"],
+    )
+
+    def try_stmt(self, st, rest, final, ind):
+        if self.name != "implementedBy" or st.orelse or st.finalbody or len(st.handlers) != 1 \
+                or st.handlers[0].name is not None or not isinstance(st.handlers[0].type, ast.Name):
+            _fail(st, "unsupported try statement")
+        exc = st.handlers[0].type.id
+        body = [ast.unparse(x) for x in st.body]
+        if exc == "AttributeError" and body in [list(b) for b in self.TRY_ATTR_BODIES]:
+            return self.block(list(st.body) + list(rest), final, ind)
+        if exc == "TypeError" and body and body[0] == "cls.__implemented__ = spec":
+            # the first statement is the one that raises (immutable type), before any effect
+            pad = "  " * ind
+            env0 = dict(self.env)
+            a = self.block(list(st.body) + list(rest), final, ind + 1)
+            self.env = dict(env0)
+            b = self.block(list(st.handlers[0].body) + list(rest), final, ind + 1)
+            self.env = env0
+            return "%sif p_can_setattr s cls then\n%s\n%selse\n%s" % (pad, a, pad, b)
+        _fail(st, "try statement of a shape the translator does not know")
+
     def stmt(self, st, rest, final, ind):
         pad = "  " * ind
         self._pad = pad
@@ -448,6 +507,13 @@ class _Fn:
                 _fail(st, "bare return")
             if self.returns == "state":
                 _fail(st, "return of a value in a procedure")
+            if self.returns == "state+node":
+                if ast.unparse(st.value) == "_implementedBy_super(cls)" and self.env.get("cls") == "clsref":
+                    self._consumed = pad + "p_implementedBy_super s cls"
+                else:
+                    self._consumed = pad + "(s, %s)" % self.expr(st.value, "spec")[0]
+                self.returned = True
+                return None
             want = {"state+prov": "prov", "list": "list", "decl": "decl"}[self.returns]
             v = self.expr(st.value, want)[0]
             self._consumed = pad + ("(s, %s)" % v if self.returns.startswith("state+") else v)
@@ -458,6 +524,9 @@ class _Fn:
             if not (isinstance(exc, ast.Call) and isinstance(exc.func, ast.Name)
                     and exc.func.id in ("TypeError", "ValueError")) or st.cause is not None:
                 _fail(st, "unsupported raise")
+            if self.returns == "state+node":
+                self._consumed = pad + "(p_raise exc_%s s, p_no_spec)" % exc.func.id
+                return None
             if self.returns != "state":
                 _fail(st, "raise in a function that returns a value")
             self._consumed = pad + "p_raise exc_%s s" % exc.func.id
@@ -491,12 +560,51 @@ class _Fn:
         if isinstance(st, ast.Delete):
             if ast.unparse(st) == "del InstanceDeclarations[self.__args]" and self.env.get("self") == "prov":
                 return "let s := p_cache_del s (p_args self) in"
+            if ast.unparse(st) == "del cls.__implemented__" and self.name == "implementedBy":
+                return "let s := p_del_dict_implemented s cls in"
             _fail(st, "unsupported del")
         if isinstance(st, ast.Expr) and isinstance(st.value, ast.Call):
             return self.call_stmt(st)
         _fail(st, "unsupported statement")
 
+    def assign_implementedBy(self, st):
+        src = ast.unparse(st)
+        if src == "spec = Implements.named(spec_name, *[implementedBy(c) for c in bases])":
+            if self.env.get("bases") != "cls_list" or self.env.get("spec_name") != "clsref":
+                _fail(st, "unexpected kinds")
+            self.env["spec"] = "dv"
+            return ("let '(s, base_specs) :=\n%s  fold_left (fun '(s, acc) c => let '(s, v) := gen_implementedBy fuel g s c in (s, acc ++ [v]))\n"
+                    "%s    bases (s, (@nil node)) in\n%slet '(s, spec) := p_implements_named s spec_name base_specs in"
+                    % (self._pad, self._pad, self._pad))
+        if src == "spec = Implements.named(spec_name, *_normalizeargs(spec))":
+            if self.env.get("spec") != "list" or self.env.get("spec_name") != "clsref":
+                _fail(st, "unexpected kinds")
+            self.env["spec"] = "dv"
+            return "let '(s, spec) := p_implements_named s spec_name (p_normalizeargs spec) in"
+        if src == "spec = (spec,)" and self.env.get("spec") == "dv":
+            self.env["spec"] = "list"
+            return "let spec := (p_dv_old spec) in"
+        if src == "spec.inherit = None" and self.env.get("spec") == "dv":
+            return "let s := p_set_inherit_none s (p_dv_spec spec) in"
+        if src == "spec.inherit = cls" and self.env.get("spec") == "dv":
+            return "let s := p_set_inherit_cls s (p_dv_spec spec) cls in"
+        if src == "spec._implements_cls = cls" and self.env.get("spec") == "dv":
+            return "let s := p_set_implements_cls s (p_dv_spec spec) cls in"
+        if src == "cls.__implemented__ = spec" and self.env.get("spec") == "dv":
+            return "let s := p_store_dict s cls (p_dv_spec spec) in"
+        if src == "cls.__providedBy__ = objectSpecificationDescriptor":
+            return "let s := p_install_osd s cls in"
+        if src == "BuiltinImplementationSpecifications[cls] = spec" and self.env.get("spec") == "dv":
+            return "let s := p_table_set s cls (p_dv_spec spec) in"
+        if ast.unparse(st.targets[0]) == "cls.__provides__" and len(st.targets) == 1:
+            return "let s := p_set_provides s (p_as_object cls) %s in" % self.expr(st.value, "prov")[0]
+        return None
+
     def assign(self, st):
+        if self.name == "implementedBy":
+            r = self.assign_implementedBy(st)
+            if r is not None:
+                return r
         targets = st.targets
         # provides = object.__provides__ = Provides(cls, *interfaces)
         if len(targets) == 2 and isinstance(targets[0], ast.Name) and isinstance(targets[1], ast.Attribute):
@@ -516,7 +624,7 @@ class _Fn:
         _fail(st, "unsupported assignment target")
 
     def bind_value(self, name, value, st):
-        if name in ("s", "g") or name.startswith("p_") or name.startswith("gen_"):
+        if name in ("s", "g", "fuel", "base_specs") or name.startswith("p_") or name.startswith("gen_"):
             _fail(st, "variable name clashes with the kernel vocabulary")
         cname = name.replace("object", "object_")
         # call of the translated Provides factory: state and value
@@ -688,6 +796,8 @@ class _Fn:
                 if isinstance(st, (ast.If, ast.For)):
                     tails(st.body)
                     tails(st.orelse)
+                elif isinstance(st, ast.Try) and self.name == "implementedBy":
+                    tails(st.body)
                 elif not isinstance(st, (ast.Return, ast.Raise, ast.Assign, ast.AugAssign, ast.Expr, ast.Delete, ast.Break)):
                     _fail(st, "unsupported statement")
         tails(stmts)
@@ -705,7 +815,13 @@ class _Fn:
         # a dead (aliased) list must not be read after the aliasing
         ps = " ".join("(%s : %s)" % (p.replace("object", "object_"), COQ_TYPE[k]) for p, k in
                       self.params + ([self.vararg] if self.vararg else []))
-        rt = {"state": "kstate", "list": "list node", "decl": "list node", "state+prov": "kstate * kprov"}[self.returns]
+        rt = {"state": "kstate", "list": "list node", "decl": "list node", "state+prov": "kstate * kprov",
+              "state+node": "kstate * node"}[self.returns]
+        if self.name == "implementedBy":
+            if header:
+                _fail(self.node, "unexpected loop variables")
+            return ("Fixpoint %s (fuel : nat) (g : igraph) (s : kstate) %s {struct fuel} : %s :=\n"
+                    "  match fuel with\n  | 0 => (s, p_no_spec)\n  | S fuel =>\n%s\n  end." % (self.coq, ps, rt, body))
         return "Definition %s (g : igraph) (s : kstate) %s : %s :=\n%s\n%s." % (
             self.coq, ps, rt, "\n".join(header), body) if header else \
             "Definition %s (g : igraph) (s : kstate) %s : %s :=\n%s." % (self.coq, ps, rt, body)
@@ -777,6 +893,7 @@ def _find(module):
                             body=[ifs[0]], decorator_list=[], returns=None, type_comment=None)
     synth.lineno = ifs[0].lineno
     found["implementedBy_class_provides"] = synth
+    found["implementedBy"] = fs[0]
     # the names the functions rely on are bound once, as expected
     binds = {}
     for n in ast.walk(module):
@@ -828,16 +945,17 @@ From ZI Require Import Lib.Util Model.DeclKernelPrims.
 """
 
 
-EPILOGUE = """(* One declaration call of a history.  Decorators are applied as calls: the translator checked
-   that implementer.__call__ delegates to classImplements for a type, implementer_only.__call__
-   to classImplementsOnly and provider.__call__ to directlyProvides. *)
-Definition gen_step (g : igraph) (s : kstate) (o : op) : kstate :=
+EPILOGUE = """(* One declaration call of a history; [nl] = what _normalizeargs makes of the call's arguments
+   (Model/Decl.v [nargs]).  Decorators are applied as calls: the translator checked that
+   implementer.__call__ delegates to classImplements for a type, implementer_only.__call__ to
+   classImplementsOnly and provider.__call__ to directlyProvides. *)
+Definition gen_step (g : igraph) (s : kstate) (o : op) (nl : list iface) : kstate :=
   match o with
-  | Implementer c l | ClassImplements c l => gen_classImplements g s (RClass c) (map NI l)
-  | ImplementerOnly c l | ClassImplementsOnly c l => gen_classImplementsOnly g s (RClass c) (map NI l)
+  | Implementer c _ | ClassImplements c _ => gen_classImplements g s (RClass c) (map NI nl)
+  | ImplementerOnly c _ | ClassImplementsOnly c _ => gen_classImplementsOnly g s (RClass c) (map NI nl)
   | ClassImplementsFirst c i => gen_classImplementsFirst g s (RClass c) (NI i)
-  | DirectlyProvides t l | Provider t l => gen_directlyProvides g s t (map NI l)
-  | AlsoProvides t l => gen_alsoProvides g s t (map NI l)
+  | DirectlyProvides t _ | Provider t _ => gen_directlyProvides g s t (map NI nl)
+  | AlsoProvides t _ => gen_alsoProvides g s t (map NI nl)
   | NoLongerProvides t i => gen_noLongerProvides g s t (NI i)
   | _ => s
   end.
@@ -901,9 +1019,54 @@ def translate_file(path):
 # and Properties/C01.v still have a kernel to compile against; the refusal itself is always
 # reported as an error (the theorems are then NOT about the current source).
 PINNED_SOURCE = r'''
+@_use_c_impl
 def implementedBy(cls):
-    if isinstance(cls, type) and '__provides__' not in cls.__dict__:
-        cls.__provides__ = ClassProvides(cls, getattr(cls, '__class__', type(cls)))
+    try:
+        if isinstance(cls, super):
+            return _implementedBy_super(cls)
+        spec = cls.__dict__.get('__implemented__')
+    except AttributeError:
+        spec = getattr(cls, '__implemented__', None)
+        if spec is None:
+            spec = BuiltinImplementationSpecifications.get(cls)
+            if spec is not None:
+                return spec
+            return _empty
+        if spec.__class__ == Implements:
+            return spec
+        return Declaration(*_normalizeargs((spec,)))
+    if isinstance(spec, Implements):
+        return spec
+    if spec is None:
+        spec = BuiltinImplementationSpecifications.get(cls)
+        if spec is not None:
+            return spec
+    spec_name = _implements_name(cls)
+    if spec is not None:
+        spec = (spec,)
+        spec = Implements.named(spec_name, *_normalizeargs(spec))
+        spec.inherit = None
+        del cls.__implemented__
+    else:
+        try:
+            bases = cls.__bases__
+        except AttributeError:
+            if not callable(cls):
+                raise TypeError('ImplementedBy called for non-factory', cls)
+            bases = ()
+        spec = Implements.named(spec_name, *[implementedBy(c) for c in bases])
+        spec.inherit = cls
+    spec._implements_cls = cls
+    try:
+        cls.__implemented__ = spec
+        if not hasattr(cls, '__providedBy__'):
+            cls.__providedBy__ = objectSpecificationDescriptor
+        if isinstance(cls, type) and '__provides__' not in cls.__dict__:
+            cls.__provides__ = ClassProvides(cls, getattr(cls, '__class__', type(cls)))
+    except TypeError:
+        if not isinstance(cls, type):
+            raise TypeError('ImplementedBy called for non-type', cls)
+        BuiltinImplementationSpecifications[cls] = spec
     return spec
 
 
